@@ -3,8 +3,8 @@ CONSTANTS
   Paths = {"p1", "p2"}
   Vals = {1, 2}
   MaxOps = 4
-  UpdatesOnly = FALSE
+  UpdatesOnly = TRUE
   Mutant = "none"
-INVARIANTS Converge NoLostUpdate SyncAfterSnapshot Backlog
+INVARIANTS UOSyncFirst Backlog Converge NoLostUpdate SyncAfterSnapshot
 CHECK_DEADLOCK FALSE
 PROPERTIES EventuallySynced EventuallyConverged
